@@ -198,3 +198,20 @@ Proof. split; reflexivity. Qed.
 
 Lemma max_zero_tie : minmax prov_numops true [pz; nz] = ROk pz /\ minmax prov_numops true [nz; pz] = ROk pz.
 Proof. split; reflexivity. Qed.
+
+(* ---------------------------------------------------------------- size / dim are NOT exact in the code *)
+(* derived-semantics.rst: "Len / Size / Dim: exact integer counts, no rounding".
+   ops.size / ops.dim round the count under the active context; the faithful model
+   (ESize / EDim use n_round) therefore refutes the documented exactness: under a
+   2-digit context the size of a 5-element list is 4 while its len is 5. *)
+Definition size_prog : program :=
+  [("main"%string, Func ["xs"%string] None
+      [SContext None (ECtor (KMPFloat RNE) [ENum (FFin (RF false 0 2))])
+         [SReturn (ETuple [ESize (EVar "xs") (ENum (FFin (RF false 0 0))); ELen (EVar "xs")])]])].
+
+Definition five : list cval := map (fun z => CNum (num_of_Z z)) [1; 2; 3; 4; 5].
+
+Lemma size_exact_refuted :
+  exists sz ln, run prov_numops size_prog 50 "main" [CList five] None = ROk (CTuple [CNum sz; CNum ln]) /\
+    num_same ln (num_of_Z 5) = true /\ num_same sz (num_of_Z 5) = false /\ num_same sz (num_of_Z 4) = true.
+Proof. eexists. eexists. split; [vm_compute; reflexivity|]. vm_compute. auto. Qed.
